@@ -793,7 +793,21 @@ interval_relation(const ITV& i,
   else {
     // `c' is an upper bound.
     if (i.upper_is_boundary_infinity()) {
-      return Poly_Con_Relation::strictly_intersects();
+      PPL_ASSERT(!i.lower_is_boundary_infinity());
+      assign_r(bound_diff, i.lower(), ROUND_NOT_NEEDED);
+      sub_assign_r(bound_diff, bound_diff, bound, ROUND_NOT_NEEDED);
+      switch (sgn(bound_diff)) {
+      case -1:
+        return Poly_Con_Relation::strictly_intersects();
+      case 0:
+        if (constraint_type == Constraint::STRICT_INEQUALITY
+            || i.lower_is_open()) {
+          return Poly_Con_Relation::is_disjoint();
+        }
+        return Poly_Con_Relation::strictly_intersects();
+      case 1:
+        return Poly_Con_Relation::is_disjoint();
+      }
     }
     else {
       assign_r(bound_diff, i.upper(), ROUND_NOT_NEEDED);
